@@ -81,7 +81,59 @@ def sequences(kind, m, maxlen, probes=1, timeout=900):
     return seqs, info
 
 
+def svd_sequences(maxlen, narg=3, ks=(1, 3, 4), maxconv=2, timeout=900):
+    """All call sequences of MC_SVDSeq of length maxlen as 'C0,U3,V1,S' strings (histories deduplicated over the nondeterministic nconv)."""
+    cdir = os.path.join(ROOT, ".cache", "kry")
+    os.makedirs(cdir, exist_ok=True)
+    h = hashlib.sha256()
+    for f in ("PartialSVDOps.tla", "MC_SVDSeq.tla"):
+        with open(os.path.join(SPEC, f), "rb") as fh:
+            h.update(fh.read())
+    h.update(("%d/%d/%s/%d" % (maxlen, narg, ks, maxconv)).encode())
+    key = "svd_" + h.hexdigest()[:16]
+    cfile = os.path.join(cdir, key + ".json")
+    if os.path.exists(cfile):
+        with open(cfile) as fh:
+            o = json.load(fh)
+        return o["seqs"], o["info"]
+    wd = os.path.join(cdir, key + ".work")
+    shutil.rmtree(wd, ignore_errors=True)
+    os.makedirs(wd)
+    cfg = os.path.join(wd, "gen.cfg")
+    with open(cfg, "w") as fh:
+        fh.write("SPECIFICATION SSpec\nCONSTANTS\n  MaxConv = %d\n  V_Invalidate = TRUE\n  MaxLen = %d\n  NArg = %d\n  Ks = {%s}\n" % (maxconv, maxlen, narg, ", ".join(str(k) for k in ks)))
+        fh.write("INVARIANTS SeqCacheIsCurrent SeqNoIndexError SeqColsReturned\nCHECK_DEADLOCK FALSE\n")
+    dump = os.path.join(wd, "states.dump")
+    cmd = vlib.tlc_cmd("MC_SVDSeq.tla", cfg, 4, os.path.join(wd, "md"), xmx="6g", extra=["-dump", dump])
+    p = subprocess.run(cmd, cwd=SPEC, stdout=subprocess.PIPE, stderr=subprocess.STDOUT, universal_newlines=True, timeout=timeout)
+    ok = "Model checking completed. No error has been found." in p.stdout
+    mm = re.search(r"(\d+) states generated, (\d+) distinct states found", p.stdout)
+    info = dict(ok=ok, states=int(mm.group(2)) if mm else 0, module="MC_SVDSeq", maxlen=maxlen, narg=narg, ks=list(ks))
+    seqs = set()
+    if ok:
+        with open(dump) as fh:
+            txt = fh.read()
+        for hm in re.finditer(r"/\\ hist = <<(.*?)>>\n\n", txt + "\n\n", re.S):
+            toks = re.findall(r"<<([^<>]*)>>", hm.group(1))
+            if len(toks) == maxlen:
+                seqs.add(",".join(_tok(t) for t in toks))
+    else:
+        info["stdout_tail"] = p.stdout[-2000:]
+    seqs = sorted(seqs)
+    shutil.rmtree(wd, ignore_errors=True)
+    if ok:
+        with open(cfile, "w") as fh:
+            json.dump(dict(seqs=seqs, info=info), fh)
+    return seqs, info
+
+
 if __name__ == "__main__":
+    if sys.argv[1] == "svd":
+        s, info = svd_sequences(int(sys.argv[2]))
+        print(info, len(s))
+        for x in s[:10]:
+            print(x)
+        sys.exit(0)
     k, m, L = int(sys.argv[1]), int(sys.argv[2]), int(sys.argv[3])
     s, info = sequences(k, m, L, int(sys.argv[4]) if len(sys.argv) > 4 else 1)
     print(info, len(s))
